@@ -5,7 +5,8 @@ from oracle_util import *  # noqa
 from protocol import from_real, KEYS, KEY_IDX
 
 ID = "C14"
-LEAN_MODULE = "SCoda.Props.C14"
+LEAN_MODULE = ["SCoda.Props.C14", "SCoda.Props.Notes"]
+LEVEL = "proof"
 CLAUSES = [
     ("every note stays inside the playable range", ["SCoda.C14.in_range", "SCoda.C14.wrap_in_range", "SCoda.C14.settings_range"]),
     ("every resulting note is the image of an original note with its pitch class shifted by exactly the interval",
@@ -14,7 +15,9 @@ CLAUSES = [
     ("when nothing is moved by octaves: exact shift, onsets/durations/velocities untouched, transposing back restores",
      ["SCoda.C14.exact", "SCoda.C14.inverse", "SCoda.C14.timing", "SCoda.C14.wrap_id"]),
     ("key signatures are transposed by the same interval and never become undefined", ["SCoda.C14.key_defined", "SCoda.C20.transpose_tonic"]),
-    ("glue: after an octave wrap Sequence.transpose re-normalises and re-quantises note lengths, which only removes or shortens notes", None),
+    ("glue: whatever Sequence.transpose does after the pitch shift (normalise, note-length quantisation), every note-on of the result is a note-on of the "
+     "shifted view with the same pitch, channel and velocity, and the returned flag is the shift flag",
+     ["SCoda.Notes.transposeSeq_note_ons", "SCoda.Notes.normalise_note_ons", "SCoda.Notes.toAbs_note_ons"]),
 ]
 RULE = ("well-formed sequences with key signatures, pitches near both range limits, x intervals -200..200 incl. 0 and multiples "
         "of 12; bars with and without key; non-trivial = has notes and interval != 0")
